@@ -238,7 +238,9 @@ def remove_SplitSliceRead(op, arch):
             and consumer.original_type != Op.Transpose
             and all(
                 shape == op.ofm_shapes[0]
-                for tens, shape in zip((consumer.ifm, consumer.ifm2), consumer.ifm_shapes)
+                # or the consumer already reads exactly this slice out of the unsliced tensor (the state reads of an LSTM)
+                or (shape == op.ifm_shapes[0] and offset is not None and offset == op.read_offsets[0])
+                for tens, shape, offset in zip((consumer.ifm, consumer.ifm2), consumer.ifm_shapes, consumer.read_offsets)
                 if tens == op.ofm
             )
             # A slice that is broadcast by a binary elementwise op must keep its own shape: moving the read to the consumer
